@@ -54,6 +54,7 @@ let gen_for (which : string) ~(tier : string) ~(seed : int) ~(emit : Sexp.t -> u
       if i mod 3 = 0 then emit (mk (Gen_prog.to_string (Gen_prog.perturb_type r (Gen_prog.perturb_type r p))))
     end;
     if i mod 10 = 0 then emit (mk (poly_programs r))
+    ;if i mod 4 = 0 then emit (mk (Gen_prog.confusable r))
   done
 
 let d9_sig (a : int) = if a > 0 then " sig=D9-hole-copied-by-open" else ""
